@@ -395,9 +395,9 @@ var lastExecs int64
 // ------------------------------------------------------------------ parent side
 
 type worker struct {
-	cmd *exec.Cmd
-	in  *bufio.Writer
-	out *bufio.Reader
+	cmd   *exec.Cmd
+	in    *bufio.Writer
+	out   *bufio.Reader
 	stdin io.WriteCloser
 }
 
